@@ -74,7 +74,7 @@ def check_run(ctx, case, data, res, expected, tmpdir):
                 key = "saved-stream-blocks-out-of-order-or-altered"
             ctx.violation(key, dict(w, saved_samples=len(frames) // bps, read_samples=len(want) // bps, cache_size_sec=case["saver"]["cache_size_sec"]))
             return False
-        if want != data[: len(want)] or len(want) != len(data):
+        if want != data[: len(want)] or (len(want) != len(data) and not case.get("stop")):
             ctx.violation("reader-did-not-produce-the-whole-input", dict(w, produced=len(want), input=len(data)))
             return False
     for o in res.observers:
@@ -87,7 +87,10 @@ def check_run(ctx, case, data, res, expected, tmpdir):
                 return False
             sil = bytes(round(case["silence"] * rate) * bps)
             want = sil.join(b for _, _, _, b in expected)
-            ref = auditok.split_and_join_with_silence(data, case["silence"], **AC.split_kwargs(case), **AC.audio_kwargs(case))
+            if case.get("short_reads") or case.get("stop"):
+                ref = None if not expected else want  # the API comparison needs the plain fixed-block, unstopped stream
+            else:
+                ref = auditok.split_and_join_with_silence(data, case["silence"], **AC.split_kwargs(case), **AC.audio_kwargs(case))
             if (ref is None) != (not expected) or (ref is not None and bytes(ref) != want):
                 ctx.violation("split_and_join_with_silence-differs-from-joined-events", dict(w, ref_len=None if ref is None else len(bytes(ref)), want_len=len(want)))
                 return False
@@ -138,6 +141,10 @@ def check_run(ctx, case, data, res, expected, tmpdir):
 
 def shape_case(rng, case):
     """push the case towards the situations named in the property."""
+    if rng.random() < 0.25 and case["block"] > 1:
+        case["short_reads"] = rng.getrandbits(32) or 1  # blocks of varying size before the end of the stream
+    if rng.random() < 0.2 and not case.get("short_reads"):
+        case["stop"] = {"after_reads": rng.randint(0, len(case["v"]) + 1), "extra_steps": rng.choice((0, 1, 3))}
     r = rng.random()
     if r < 0.08:
         case["v"] = []
@@ -163,8 +170,16 @@ def one(ctx, case, tmpdir):
     for f in os.listdir(tmpdir):
         p = os.path.join(tmpdir, f)
         shutil.rmtree(p) if os.path.isdir(p) else os.unlink(p)
-    expected = P.split_reference(data, case)
     res = P.run_pipeline(case, data, tmpdir)
+    if case.get("stop"):
+        # a stop arrived: the files must agree with what was actually read (C14 decides the stop itself)
+        ctx.count("runs_with_a_stop")
+        read = b"".join(b for b in res.inner_blocks if b is not None)
+        expected = P.split_reference(read, case) if not case.get("short_reads") else [(d.id, d.start, d.end, None) for d in res.detections]
+        if case.get("short_reads"):
+            case = dict(case, observers=[k for k in case["observers"]])
+    else:
+        expected = P.split_reference(data, case)
     s = res.sched
     ctx.case(stable_hash([case["observers"], case["saver"], s.decisions]), bool(data))
     ctx.count("scheduled_runs")
@@ -173,6 +188,8 @@ def one(ctx, case, tmpdir):
     ctx.count("context_switches", s.context_switches)
     ctx.count("timeouts_fired", s.timeouts_fired)
     ctx.maxi("queue_depth", s.max_queue_depth)
+    if case.get("short_reads"):
+        ctx.count("runs_with_short_reads")
     if not data:
         ctx.count("runs_on_empty_stream")
     elif not expected:
@@ -219,7 +236,7 @@ def replay(ctx, case):
 def inconclusive(merged, tier):
     c = merged["counters"]
     need = ["scheduled_runs", "saver_runs", "blocks_checked", "joiner_files_checked", "joiner_files_with_zero_events",
-            "region_dirs_checked", "region_files_checked", "runs_on_empty_stream", "runs_on_event_free_stream",
+            "region_dirs_checked", "region_files_checked", "runs_on_empty_stream", "runs_on_event_free_stream", "runs_with_a_stop", "runs_with_short_reads",
             "line_mode_runs", "timeouts_fired"]
     out = [f"monitor never observed {k}" for k in need if c.get(k, 0) == 0]
     if c.get("max:queue_depth", 0) < 3:
